@@ -463,3 +463,63 @@ func runNoHostState(p *Program, r *RuleResult) {
 		r.add("parser+types+process", "no-host-wide-observation", Undecided, "", fmt.Sprintf("only %d functions scanned", nFn))
 	}
 }
+
+// R-REQUEST-FRESH (C19): a request is decoded into a value made for that request.
+func init() {
+	register(&Rule{Name: "R-REQUEST-FRESH", Min: 1,
+		Doc: "every decoding of external input in the driver packages (encoding/json Unmarshal and Decoder.Decode outside package process, types and parser) writes into a variable allocated in the decoding function for this call – a zero value that nothing earlier can have filled – never into a field of a longer-lived object (the per-connection client, the hub) or a package-level variable: decoding in place keeps every field the new message omits, so a request is answered with parts of an earlier one",
+		Run: runRequestFresh})
+}
+
+func runRequestFresh(p *Program, r *RuleResult) {
+	n := 0
+	for _, fn := range p.SrcFuncs {
+		pk := fn.Pkg
+		if pk == nil && fn.Parent() != nil {
+			pk = fn.Parent().Pkg
+		}
+		if pk == nil {
+			continue
+		}
+		switch pk.Pkg.Path() {
+		case processPkg, typesPkg, parserPkg:
+			continue
+		}
+		ord := 0
+		for _, c := range p.callsIn(fn) {
+			sc := c.Common().StaticCallee()
+			if sc == nil || sc.Pkg == nil || sc.Pkg.Pkg.Path() != "encoding/json" {
+				continue
+			}
+			var dst ssa.Value
+			switch sc.Name() {
+			case "Unmarshal":
+				if len(c.Common().Args) == 2 {
+					dst = c.Common().Args[1]
+				}
+			case "Decode":
+				if len(c.Common().Args) == 2 {
+					dst = c.Common().Args[1]
+				}
+			}
+			if dst == nil {
+				continue
+			}
+			n++
+			ord++
+			construct := fmt.Sprintf("decode-destination#%d", ord)
+			if mi, ok := dst.(*ssa.MakeInterface); ok {
+				dst = mi.X
+			}
+			al, fresh := dst.(*ssa.Alloc)
+			if fresh {
+				// nothing but the zero value (or a literal stored in this function) before the call
+				r.add(fnName(fn), construct, Holds, p.instrPos(c), "decoded into a variable of this call ("+al.Comment+")")
+				continue
+			}
+			r.add(fnName(fn), construct, Violated, p.instrPos(c),
+				fmt.Sprintf("the input is decoded into %s, which outlives this call: fields the message omits keep what an earlier message left there, so one request can re-run or re-check the program of another", displayKey(dst)))
+		}
+	}
+	r.count("decodings of external input", n)
+}
